@@ -321,6 +321,7 @@ def tie(ctx, broken):
     if tot["aborted_runs"]:
         ctx.notes.append("runs aborted by an exception outside the training-set code (not a C15 matter, reported): "
                          + "; ".join(a["exc"][:160] for a in tot["aborted_runs"] if not a["anchored"]))
+    _tie_sites(ctx, broken, outs)
     coq = [R.event_to_coq(e) for e in events]
     okc, bad, bad_s, log = C.run_cases_both("C15run", C.GSN_TY, C.GSN_OK, C.GSN_OK_SRC, coq, shard=max(4, len(coq) // 12 + 1), with_src=src.available)
     src.add("run-level selections", okc, bad, bad_s, len(coq), lambda i: dict(kind="run_selection", index=i))
@@ -377,6 +378,38 @@ class _SrcTie:
         self.ctx.coverage["gpset_source_cases"] = self.n
         if self.faults:
             self.ctx.coverage["gpset_source_faults"] = [dict(part=p, what=k, replay=r) for p, k, r in self.faults][:6]
+
+
+def _tie_sites(ctx, broken, outs):
+    """Validation of the translator's CALL-SITE census against the real code: every local_gp_fitting call observed in the real runs
+    (calling method; whether its centre equals the incumbent / the point last handed to the logger / the history row of the very
+    surrogate passed) must be explained by one of the sites the translator resolved for that method in the CURRENT source."""
+    from translate import gpset as T
+    snap, err, _ = T.current()
+    if snap is None:
+        return          # translate:gpset is already broken
+    want = {}
+    for f in snap["fits"]:
+        want.setdefault(f[0], []).append(f[2])
+    seen, unexplained, total = {}, [], 0
+    for o in outs:
+        for caller, inc, ev, hist, n in o.get("site_obs", []):
+            total += n
+            holds = {"CenIncumbent": inc, "CenEvaluated": ev, "CenHistoryRow": hist}
+            sites = want.get(caller, [])
+            hit = [c for c in sites if isinstance(c, str) and holds.get(c)]
+            other = [c for c in sites if not isinstance(c, str)]
+            for c in hit:
+                seen[(caller, c)] = seen.get((caller, c), 0) + n
+            if not hit and not other:
+                unexplained.append(f"{n} call(s) from {caller} with centre == incumbent: {inc}, == last evaluated point: {ev}, == own history row: {hist}; "
+                                   f"translated sites of that method: {sites}")
+    ctx.coverage["fit_sites_observed"] = {f"{k[0]}:{k[1]}": v for k, v in sorted(seen.items())}
+    ok = not unexplained
+    if not ctx.oblige("correspondence:gpset_sites", "correspondence", ok,
+                      (f"{total} local fits of the real runs explained by the translated call sites {sorted(ctx.coverage['fit_sites_observed'].items())}"
+                       if ok else "TRANSLATOR fault (call-site census): " + " || ".join(unexplained[:3]))[:700]):
+        broken.append(("correspondence:gpset_sites", "the translator's call-site census does not explain the local fits observed in real runs: " + unexplained[0][:400]))
 
 
 def aim(ctx):
